@@ -53,7 +53,7 @@ def run_case(case):
     nx, ny, dx, dy = St["nx"], St["ny"], St["dx"], St["dy"]
     u, v, Kx, Ky, Kz = St["profiles"]
     nz = len(St["z"])
-    tol = solve.tol(prec, St["G"])
+    tol = solve.tol(prec, St["G"], cr=St["cr"])
     desc = gen.describe(St)
     levels, lkind = solve.pick_levels(rng, nz, str(rng.choice(["top", "scalar", "few"])))
     oblique = bool(abs(u[-1]) > 1e-6 and abs(v[-1]) > 1e-6 and not np.allclose(Kx, Ky))
@@ -88,7 +88,7 @@ def run_case(case):
     if Sh is not None:
         nx, ny, dx, dy = Sh["nx"], Sh["ny"], Sh["dx"], Sh["dy"]
         u, v, Kx, Ky, Kz = Sh["profiles"]
-        tolh = solve.tol(prec, Sh["G"])
+        tolh = solve.tol(prec, Sh["G"], cr=Sh["cr"])
         dh = gen.describe(Sh)
         nzh = len(Sh["z"])
         lv, _k = solve.pick_levels(rng, nzh, str(rng.choice(["top", "scalar", "few"])))
